@@ -130,6 +130,62 @@ fn rerender(line: &str) -> Value {
     json!({"rendered": re, "whole_tokens": toks(&li.tokens), "direct": seg_tokens(line), "via_script": seg_tokens(&re)})
 }
 
+
+// ---- C20: the completer's insertion spliced the way the line editor does, then planned ----
+fn lcp(items: &[String]) -> String {
+    if items.is_empty() {
+        return String::new();
+    }
+    let first: Vec<char> = items[0].chars().collect();
+    let mut n = first.len();
+    for it in &items[1..] {
+        let cs: Vec<char> = it.chars().collect();
+        let mut k = 0;
+        while k < n && k < cs.len() && cs[k] == first[k] {
+            k += 1;
+        }
+        n = k;
+    }
+    first[..n].iter().collect()
+}
+
+fn complete_case(sh: &mut x::shell::Shell, case: &Value) -> Value {
+    let line = case.get("line").and_then(|v| v.as_str()).unwrap_or("");
+    let for_dir = case.get("for_dir").and_then(|v| v.as_bool()).unwrap_or(false);
+    if let Some(d) = case.get("cwd").and_then(|v| v.as_str()) {
+        if std::env::set_current_dir(d).is_err() {
+            return json!({"tool_error": format!("cannot chdir to {}", d)});
+        }
+    }
+    let ws = x::completers::escaped_word_start(line);
+    if ws > line.len() || !line.is_char_boundary(ws) {
+        return json!({"word_start": ws, "bad_word_start": true});
+    }
+    let word = &line[ws..];
+    let comps = x::completers_path::complete_path(word, for_dir);
+    let list: Vec<Value> = comps.iter().map(|c| json!({"completion": c.completion, "suffix": format!("{:?}", c.suffix),
+        "display": c.display})).collect();
+    let mut spliced = Value::Null;
+    let mut plan = Value::Null;
+    if comps.len() == 1 {
+        let mut s = format!("{}{}", &line[..ws], comps[0].completion);
+        let sfx = format!("{:?}", comps[0].suffix);
+        if sfx == "Default" {
+            s.push(' ');
+        } else if sfx.starts_with("Some(") {
+            if let Some(c) = sfx.chars().nth(6) {
+                s.push(c);
+            }
+        }
+        plan = plan_line(sh, &s);
+        spliced = json!(s);
+    } else if comps.len() > 1 {
+        let items: Vec<String> = comps.iter().map(|c| c.completion.clone()).collect();
+        spliced = json!(format!("{}{}", &line[..ws], lcp(&items)));
+    }
+    json!({"word_start": ws, "word": word, "completions": list, "spliced": spliced, "plan": plan})
+}
+
 // ---- C06: replay of JobControl paths through the fake kernel ----
 fn job_snapshot(sh: &x::shell::Shell) -> Value {
     let mut m = serde_json::Map::new();
@@ -268,6 +324,10 @@ fn main() {
                 Err(e) => json!({"panic": panic_msg(e)}),
             },
             "rerender" => match catch_unwind(AssertUnwindSafe(|| rerender(&line))) {
+                Ok(v) => v,
+                Err(e) => json!({"panic": panic_msg(e)}),
+            },
+            "complete" => match catch_unwind(AssertUnwindSafe(|| complete_case(&mut sh, &case))) {
                 Ok(v) => v,
                 Err(e) => json!({"panic": panic_msg(e)}),
             },
